@@ -38,14 +38,14 @@ CLAIMED = {
         level="exploration",
         technique="deterministic simulation: the run-time-chosen internal qubit order is a seam (the scheduler returns identity / reversal / the real optimiser's answer / arbitrary permutations), plus register relabelling and crash+resume; run-vs-run oracle",
         design="7.3",
-        text="Seeded scenarios with distinguishable atoms (local targets, DMM, SLM, dark atoms, pi pulse on one atom, user initial state) are run under several internal orders, with the register re-inserted / relabelled, with non-permutable observables (safeguard) and interrupted by crash+resume; results must agree (2e-3 absolute, relative to |H| / |H|^2 for energies) and list atoms in register order; the pi-pulse workload checks bit-string positions exactly, every noiseless run checks its bit-string positions against its own occupations (exact binomial); 2-6 atoms plus 8-16 atom registers; second instances of per-atom observables under a tag_suffix.",
+        text="Seeded scenarios with distinguishable atoms (local targets, DMM, SLM, dark atoms, pi pulse on one atom, user initial state) are run under several internal orders, with the register re-inserted / relabelled, with non-permutable observables (safeguard) and interrupted by crash+resume; results must agree (2e-3 absolute; 3e-2 in the close-pair blockade workloads, whose signal is 0.2-0.45; relative to |H| / |H|^2 for energies) and list atoms in register order; strongly interacting long workloads (SLM mask with a blockaded neighbour, blockade, user matrices with couplings of both signs) use adjacency-preserving orders only (mirror image, the real optimiser's answer), because two-site TDVP projects out part of a coupling between non-adjacent sites; the pi-pulse workload checks bit-string positions exactly, every noiseless run checks its bit-string positions against its own occupations (exact binomial); 2-6 atoms plus 8-16 atom registers; second instances of per-atom observables under a tag_suffix.",
         note="tolerance calibrated on the repaired tree (max discrepancy reported in the evidence); weakly entangling workloads with truncation off so that TDVP's order-dependent error is far below the tolerance",
     ),
     "C14": dict(
         level="exploration",
         technique="deterministic simulation of the discrete-event loop over target times: seeded evaluation-time / dt swarm on both backends and all solvers incl. quantum-jump re-evolution and crash+resume; history oracle over the recorded Results plus a clock-revealing workload",
         design="7.4",
-        text="Per observable the recorded times must be strictly increasing and equal the requested set one-to-one (1e-10), nothing else recorded, run() must not raise; with the clock-revealing workload (non-interacting atoms, constant resonant drive) each recorded occupation must equal sin^2(Omega t/2) at the requested time (1e-7).",
+        text="Per observable the recorded times must be strictly increasing and equal the requested set one-to-one (1e-10), nothing else recorded, run() must not raise; with the clock-revealing workload (non-interacting atoms, constant resonant drive) each recorded occupation must equal sin^2(Omega t/2) at the requested time (1e-7) and the sampled bit strings must follow it (exact binomial); a quarter of the runs with a default-times observable are followed by two more runs that reuse the same observable instances under other default_evaluation_times.",
         note="for emu-sv there is no fault to inject (no autosave, no jump search): there the check is the history oracle over seeded configurations",
     ),
     "C15": dict(
@@ -73,7 +73,7 @@ CLAIMED = {
         level="exploration",
         technique="deterministic simulation with the numpy RNG that drives Pulser's noise-trajectory sampling under the tape; the per-trajectory history is recorded at the _run_from_sequence_data seam; conservation / exactly-once oracle plus isolated re-simulation of recorded trajectories",
         design="7.10",
-        text="Exactly n_trajectories simulations; MEAN tags equal the arithmetic mean of the recorded per-trajectory values (1e-12), bit-string counter equals the multiset union and sums to n x shots, times preserved; each sampled trajectory re-simulated alone from its pre-call SequenceData and RNG state reproduces the recorded result (no cross-trajectory state).",
+        text="Exactly n_trajectories simulations (incl. shots in which no atom is loaded, devices without a noise model, user-supplied initial states and interaction matrices, one-sided readout errors); MEAN tags equal the arithmetic mean of the recorded per-trajectory values (1e-12), bit-string counter equals the multiset union and sums to n x shots, times preserved; each sampled trajectory re-simulated alone - from its pre-call SequenceData, or as trajectory k of a trajectory list rebuilt from the sequence under the same seeds with none of its predecessors simulated - and its RNG state reproduces the recorded result (no cross-trajectory state).",
         note="aggregation semantics are Pulser's; runs that emu-mps refuses (fewer than two well-prepared atoms) are skipped and counted",
     ),
     "C26": dict(
